@@ -411,3 +411,16 @@ for _p in ("C20", "C01"):
         "differentially; a reader or writer that fails, and context cancellation, are not modelled"]
 PROPS["C20"]["prop_files"] = PROPS["C20"]["prop_files"] + ["props/C20loop.v"]
 PROPS["C20"]["files"] = list(dict.fromkeys(PROPS["C20"]["files"] + ["proofs/RenderProofs.v", "proofs/SizeProofs.v", "proofs/LoopProofs.v", "props/C20loop.v"]))
+
+# C19 (agent conc follow-up 3): deployment shapes of the race driver
+_r = PROPS["C19"]["rule"]
+_i = _r.index("driver race (binary built with -race)")
+PROPS["C19"]["rule"] = _r[:_i] + ("driver race (binary built with -race): n applications x 2-16 goroutines (one session each, histories of 3-7, thorough 3-11 requests; 70 % of the sessions with an entry function of "
+    "their own), each served concurrently 5 (thorough 10) times in one of three deployment shapes chosen by run index - one third plain (long-lived engines and per-request engines over a db/mem "
+    "store per session), one third with ALL sessions in state-debug mode (Config.StateDebug, a third of them also EngineDebug with an engine debugger; user flags unregistered, in the last such run "
+    "flags 8 and 9 registered with state.FlagDebugger before the goroutines start), one third with 80 % persisted sessions of which 6 in 7 share ONE db/fs directory through a new handle per request "
+    "(fresh directory per run under the -out directory, removed afterwards); compared with the sessions' solo runs: responses, Finish/load success and the finally stored session, and with EngineModel "
+    "per session; a data race ends the process with status 66.")
+PROPS["C19"]["trusted_extra"] = [t.replace("state.FlagDebugger (struct with a map; written by (*flagDebugger).Register <- asm.(*FlagParser).Load in debug mode and by applications; read by State.String in debug mode and engine.SimpleDebug.Break)",
+    "state.FlagDebugger (struct with a map): written ONLY by (*flagDebugger).Register (= application set-up: asm.(*FlagParser).Load in debug mode, applications, the harness in one debug run before its goroutines start) and by newFlagDebugger at package initialisation; AsList/AsString only read it - from State.String when the state is in debug mode (an eagerly evaluated log argument of engine.exec, db.go:541/545) and from engine.SimpleDebug.Break; exercised concurrently by the race driver's debug runs") for t in PROPS["C19"]["trusted_extra"]]
+PROPS["C19"]["assumptions"] = PROPS["C19"]["assumptions"] + ["sessions that share a filesystem state directory have distinct session ids (distinct records); the directory is written by this process only"]
